@@ -205,12 +205,19 @@ class BuiltinLogger:
         self.events.append(tag)
         return value
 
+    def length(self, tag, seq):
+        """HVLEN(tag, seq): logs how many forms a (quoted) sequence holds."""
+        self.events.append(f"{tag}={len(seq)}")
+
     def __enter__(self):
         self._old = getattr(builtins, LOGGER_NAME, None)
         setattr(builtins, LOGGER_NAME, self)
+        builtins.HVLEN = self.length
         return self
 
     def __exit__(self, *exc):
+        if hasattr(builtins, "HVLEN"):
+            del builtins.HVLEN
         if self._old is None:
             try:
                 delattr(builtins, LOGGER_NAME)
